@@ -209,6 +209,11 @@ let () =
   (* one abstract step; r = what the implementation answered *)
   let jstep (o:op) (r:out) (desc:string) : unit =
     if judging () && not !jdead then begin
+      (match o with
+       | ONew _ | OOpen _ -> (match int64_of_n (judge_class !js o) with
+                              | Some c when c <> 0L -> jprint (Printf.sprintf "J %d class %Ld" !opidx c)
+                              | _ -> ())
+       | _ -> ());
       let (js', allowed) = judge_step !js o in
       js := js';
       if not (ss_det js') then (jprint (Printf.sprintf "J %d undet" !opidx); jdead := true)
